@@ -4,6 +4,7 @@
 -/
 import PsVerif.Lemmas.LeastSquares
 import PsVerif.Model.Recon
+import Mathlib.LinearAlgebra.Span.Basic
 namespace PsVerif
 open Matrix
 
@@ -12,21 +13,25 @@ variable {p m n : ℕ}
 /-- **C07 (span).** Every reconstruction `B c` lies in the span of the basis (columns of `B`). -/
 theorem predict_in_span (B : Matrix (Fin n) (Fin m) ℚ) (c : Fin m → ℚ) :
     B *ᵥ c ∈ Submodule.span ℚ (Set.range fun j : Fin m => fun i => B i j) := by
-  sorry
+  have e : B *ᵥ c = ∑ j, c j • (fun i => B i j) := by
+    ext i
+    simp [Matrix.mulVec, dotProduct, Finset.sum_apply, mul_comm]
+  rw [e]
+  exact Submodule.sum_mem _ (fun j _ => Submodule.smul_mem _ _ (Submodule.subset_span ⟨j, rfl⟩))
 
 /-- **C07 (least squares).** The values of the reconstruction at the selected sensors are the best
 approximation of the measurements `y` among all signals in the span: no coefficient vector does better. -/
 theorem predict_least_squares (B : Matrix (Fin n) (Fin m) ℚ) (σ : Fin p → Fin n) (y : Fin p → ℚ)
     (c : Fin m → ℚ) (h : NormalEq (B.submatrix σ id) y c) (c' : Fin m → ℚ) :
     sq ((fun i => (B *ᵥ c) (σ i)) - y) ≤ sq ((fun i => (B *ᵥ c') (σ i)) - y) := by
-  sorry
+  exact ls_optimal (B.submatrix σ id) y c h c'
 
 /-- **C07 (interpolation).** When the sensor rows are independent and no more numerous than the
 modes, the reconstruction takes exactly the measured values at the sensors. -/
 theorem predict_interpolates (B : Matrix (Fin n) (Fin m) ℚ) (σ : Fin p → Fin n) (y : Fin p → ℚ)
     (c : Fin m → ℚ) (hrow : Function.Injective (B.submatrix σ id)ᵀ.mulVec)
     (h : NormalEq (B.submatrix σ id) y c) : (fun i => (B *ᵥ c) (σ i)) = y := by
-  sorry
+  exact ls_interpolates (B.submatrix σ id) hrow y c h
 
 /-- **C07 (linearity), full-column-rank case.** The map measurements ↦ reconstruction is linear:
 the unique least-squares coefficients of `α y₁ + β y₂` are `α c₁ + β c₂`. -/
@@ -36,7 +41,9 @@ theorem predict_linear (B : Matrix (Fin n) (Fin m) ℚ) (σ : Fin p → Fin n)
     (h₂ : NormalEq (B.submatrix σ id) y₂ c₂)
     (h : NormalEq (B.submatrix σ id) (α • y₁ + β • y₂) c) :
     B *ᵥ c = α • (B *ᵥ c₁) + β • (B *ᵥ c₂) := by
-  sorry
+  have hc : c = α • c₁ + β • c₂ :=
+    ls_unique _ hinj _ _ _ h (normalEq_linear _ y₁ y₂ c₁ c₂ h₁ h₂ α β)
+  rw [hc, Matrix.mulVec_add, Matrix.mulVec_smul, Matrix.mulVec_smul]
 
 /-- **C07 (linearity), minimum-norm case (fewer sensors than modes).** -/
 theorem predict_linear_minnorm (B : Matrix (Fin n) (Fin m) ℚ) (σ : Fin p → Fin n)
@@ -46,11 +53,19 @@ theorem predict_linear_minnorm (B : Matrix (Fin n) (Fin m) ℚ) (σ : Fin p → 
     (h : (B.submatrix σ id) *ᵥ ((B.submatrix σ id)ᵀ *ᵥ z) = α • y₁ + β • y₂) :
     B *ᵥ ((B.submatrix σ id)ᵀ *ᵥ z) =
       α • (B *ᵥ ((B.submatrix σ id)ᵀ *ᵥ z₁)) + β • (B *ᵥ ((B.submatrix σ id)ᵀ *ᵥ z₂)) := by
-  sorry
+  have e : (B.submatrix σ id)ᵀ *ᵥ z = (B.submatrix σ id)ᵀ *ᵥ (α • z₁ + β • z₂) := by
+    apply minnorm_unique (B.submatrix σ id) (α • y₁ + β • y₂) _ _ h
+    rw [Matrix.mulVec_add, Matrix.mulVec_smul, Matrix.mulVec_smul, Matrix.mulVec_add,
+      Matrix.mulVec_smul, Matrix.mulVec_smul, h₁, h₂]
+  rw [e, Matrix.mulVec_add, Matrix.mulVec_smul, Matrix.mulVec_smul, Matrix.mulVec_add,
+    Matrix.mulVec_smul, Matrix.mulVec_smul]
 
 /-- **C07 (shape).** The model's reconstruction has one row per sensor location (`n_features`). -/
 theorem predictExact_rows (B : RMat) (sensors : List Nat) (Y R : RMat)
     (h : predictExact B sensors Y = some R) : R.size = B.size := by
-  sorry
+  unfold predictExact at h
+  simp only [Option.map_eq_some_iff] at h
+  obtain ⟨C, _, rfl⟩ := h
+  simp [RMat.mul, RMat.ofFn, RMat.nrows]
 
 end PsVerif
